@@ -13,6 +13,9 @@
 3. harness/cmd/d_contract concretises the scenarios into real signed transactions and runs them on
    a real chain (one contract transaction per block, or two for "pair" operations), recording ledger
    projections, receipts and the effects observed by the probes.
+   Sandwich blocks (an operation + a balance change outside the contract environment + further contract
+   transactions of the same / another embedded / wasm contract in ONE block, 24 shapes) check that nothing
+   an earlier transaction leaves in the execution context of the block reaches the state with a later one.
 4. TLC validates the recorded trace against spec/Trace_ContractTx.tla: the clauses are evaluated on
    the OBSERVED pre/post states of every transaction (verdict); fee-formula drift is only reported.
 """
@@ -27,7 +30,7 @@ import vlib
 
 CLOCKS = ["blockchain/blockchain.go"]
 EMBEDDED = ("timelock", "multisig", "oraclelock", "refundlock", "voting")
-BUGS = ("commit_on_fail", "no_refund", "no_balance_check", "no_sub_refund")
+BUGS = ("commit_on_fail", "stale_env", "no_refund", "no_balance_check", "no_sub_refund")
 
 
 def dev(c, op):
@@ -77,6 +80,40 @@ def sample_cases(exports, rnd, budget):
         if s not in seen:
             seen.add(s)
             res.append(e)
+    return res
+
+
+def is_sandwich(e):
+    return e["path"][-1]["pair"].startswith("sw-")
+
+
+# methods that move coins through the contract environment (steers the selection only)
+MOVERS = ("transfer", "push", "refund", "finishVoting", "terminate", "pay", "paytwice", "relay", "relayhop", "burn", "addStake", "deposit")
+
+
+def sample_sandwiches(exports, rnd, budget):
+    """sandwich blocks: per (lifecycle state, block shape) the operations that move coins and are expected to succeed
+    first; states x shapes are visited in seeded random order, best candidates first"""
+    def rank(e):
+        last = e["path"][-1]
+        return (not (last["good"] and last["m"] in MOVERS), last["m"] not in MOVERS, not last["good"], last["arg"] != "valid")
+    groups = collections.defaultdict(list)
+    for e in exports:
+        groups[(e["c"], e["w"], json.dumps(e["path"][:-1]), e["path"][-1]["pair"])].append(e)
+    keys = sorted(groups)
+    rnd.shuffle(keys)
+    for k in keys:
+        rnd.shuffle(groups[k])
+        groups[k].sort(key=rank)
+    res, i = [], 0
+    while len(res) < budget and keys:
+        # within a pass the groups whose candidate is better come first
+        keys = [k for k in keys if i < len(groups[k])]
+        for k in sorted(keys, key=lambda k: rank(groups[k][i])):
+            res.append(groups[k][i])
+            if len(res) >= budget:
+                break
+        i += 1
     return res
 
 
@@ -145,9 +182,14 @@ def chunks_of(rows, size):
 def signature(row):
     """a stable signature of the operation that broke a clause (for known-finding keys)"""
     op = row.get("op", {})
-    sig = "%s.%s" % (row.get("c", "?"), op.get("m", "?"))
-    if op.get("pair", "no") != "no":
-        sig += "+after-failed-%s" % ("terminate" if op["pair"] == "term" else "attempt")
+    sig = "%s.%s" % (row.get("mainc", row.get("c", "?")), op.get("m", "?"))
+    pair = op.get("pair", "no")
+    if pair.startswith("sw-"):
+        sig += "+sandwich-%s" % pair[3:]
+        if row.get("role") == "tail" and row.get("c") != row.get("mainc"):
+            sig += ":" + str(row.get("c"))
+    elif pair != "no":
+        sig += "+after-failed-%s" % ("terminate" if pair == "term" else "attempt")
     return sig
 
 
@@ -155,7 +197,7 @@ def violation_key(clause, row):
     op = row.get("op", {})
     # a termination attempt of an oracle voting that runs out of gas, followed in the same block by
     # another transaction on the contract: one signature whatever the second transaction is
-    if row.get("c") == "voting" and (op.get("pair") == "term" or (op.get("pair") == "same" and op.get("m") == "terminate")):
+    if row.get("c") == "voting" and row.get("rc") is not None and (op.get("pair") == "term" or (op.get("pair") == "same" and op.get("m") == "terminate")):
         return "C15:failed-voting-termination-leaves-trace"
     return "C15:%s:%s" % (clause, signature(row))
 
@@ -181,6 +223,17 @@ def main(ctx):
     if not model_classes:
         raise vlib.CheckError("envelope model exported no completed transaction (vacuous bounds)")
 
+    # 1a. blocks: two transactions sharing the execution context of a block, with a balance change outside
+    #     the contract environment in between (thorough; the quick tier runs its broken variant below)
+    blk_states = 0
+    if not quick:
+        rblk = vlib.tlc(ctx, "MC_ContractTx.tla", "MC_ContractTx_block.cfg", workers=min(12, ctx.cores), timeout=3000, want_exports=False)
+        if not rblk.ok:
+            raise vlib.CheckError("design-level block model violates %s (model-only, not a verdict):\n%s"
+                                  % (rblk.invariant, (rblk.error or "")[:1500]))
+        blk_states = rblk.distinct
+        ctx.log("block model (2 transactions, shared context): %d distinct states" % rblk.distinct)
+
     # 1b. specification self-test: broken envelopes must break the clauses
     bugs = BUGS[:2] if quick else BUGS
     for b in bugs:
@@ -195,12 +248,14 @@ def main(ctx):
     if not ro.ok:
         raise vlib.CheckError("scenario generator failed: %s" % (ro.error or "")[:1500])
     ro.exports.sort(key=lambda e: json.dumps(e, sort_keys=True))
-    budget = 1100 if quick else 14000
-    cases = sample_cases(ro.exports, rnd, budget)
+    budget = 900 if quick else 12000
+    cases = sample_cases([e for e in ro.exports if not is_sandwich(e)], rnd, budget)
+    sandwiches = sample_sandwiches([e for e in ro.exports if is_sandwich(e)], rnd, 300 if quick else 4000)
     # scenarios behind the > 30000 blocks of waiting (thorough only): a bounded number, cheapest deviations first
     isdeep = lambda c: any(o["m"] == "longwait" for o in c["path"][:-1])
     deep = sorted([c for c in cases if isdeep(c)], key=lambda c: (dev(c["c"], c["path"][-1]), json.dumps(c["path"][-1])))
     cases = [c for c in cases if not isdeep(c)] + deep[:150]
+    cases += [c for c in sandwiches if not isdeep(c)] + [c for c in sandwiches if isdeep(c)][:60]
     nwalk = 30 if quick else 400
     rs = vlib.tlc(ctx, "ContractOps.tla", "MC_ContractOps_sim.cfg", workers=1, timeout=1800,
                   extra=["-simulate", "num=%d" % (nwalk * 2), "-depth", "24", "-seed", str(ctx.seed)], simulate=True)
@@ -208,8 +263,8 @@ def main(ctx):
         raise vlib.CheckError("simulation of the scenario generator failed: " + (rs.error or "")[:1500])
     rs.exports.sort(key=lambda e: json.dumps(e, sort_keys=True))
     walks = pick_walks(rs.exports, nwalk)
-    ctx.log("scenarios: %d transitions of the lifecycle graph (%d states) exported, %d selected; %d random walks"
-            % (len(ro.exports), ro.distinct, len(cases), len(walks)))
+    ctx.log("scenarios: %d transitions of the lifecycle graph (%d states) exported, %d selected (%d sandwich blocks); %d random walks"
+            % (len(ro.exports), ro.distinct, len(cases), len(sandwiches), len(walks)))
     if not cases or not walks:
         raise vlib.CheckError("no scenarios exported (dead generator)")
     cpath = ctx.path("cases.ndjson")
@@ -267,24 +322,66 @@ def main(ctx):
         cnt["fail_after_writes"] += (not x["rc"]["success"]) and e["sh"]["ran"] and e["sh"]["ok"] and bool(e["sh"]["writes"])
         cnt["escrow_refund"] += (not x["rc"]["success"]) and bool(x["tx"]["amount"]) and (x["tx"]["kind"] == "call" or x["tx"]["wasm"])
         cnt["out_of_gas"] += (not x["rc"]["success"]) and "gas" in x["err"].lower()
-    need = ["wasm_ok", "wasm_fail", "subcall", "wasm_transfer", "wasm_burn", "burn", "term", "stake_move", "transfer", "pair", "fail_after_writes", "escrow_refund", "out_of_gas"]
+    # blocks with several transactions
+    blkl = []
+    for x in rows:
+        if x["ev"] == "Reset":
+            blkl = []
+            continue
+        if x["ev"] not in ("Tx", "Plain"):
+            continue
+        blkl.append(x)
+        if x["ev"] == "Tx" and not x["mid"]:
+            ctxs = [y for y in blkl if y["ev"] == "Tx"]
+            oks = [y for y in ctxs if y["rc"]["success"]]
+            if len(blkl) > 1:
+                cnt["multi_tx_blocks"] += 1
+                cnt["sandwich_two_successes"] += len(oks) >= 2
+                cnt["sandwich_three_contract_txs"] += len(ctxs) >= 3
+                cnt["sandwich_first_ok_last_fails"] += len(ctxs) >= 2 and ctxs[0]["rc"]["success"] and not ctxs[-1]["rc"]["success"]
+                cnt["sandwich_embedded_and_wasm"] += any(y["tx"]["wasm"] for y in oks) and any(not y["tx"]["wasm"] for y in oks)
+                first, lastx = ctxs[0], ctxs[-1]
+                moved = first["rc"]["success"] and not first["tx"]["wasm"] and len(first["eff"]["req"]) >= 1
+                cnt["sandwich_env_move_then_embedded_success"] += moved and lastx["rc"]["success"] and not lastx["tx"]["wasm"] and len(ctxs) >= 2
+                cnt["sandwich_outside_change_between"] += moved and any(y["ev"] == "Plain" for y in blkl) and lastx["rc"]["success"] and not lastx["tx"]["wasm"]
+                cnt["sandwich_own_sender_paid"] += moved and any(q["a"] == first["tx"]["from"] for q in first["eff"]["req"]) and lastx["rc"]["success"] and not lastx["tx"]["wasm"]
+            blkl = []
+    need = ["sandwich_two_successes", "sandwich_three_contract_txs", "sandwich_first_ok_last_fails", "sandwich_embedded_and_wasm",
+            "sandwich_env_move_then_embedded_success", "sandwich_outside_change_between", "sandwich_own_sender_paid"]
+    need += ["wasm_ok", "wasm_fail", "subcall", "wasm_transfer", "wasm_burn", "burn", "term", "stake_move", "transfer", "pair", "fail_after_writes", "escrow_refund", "out_of_gas"]
     need += [(c, True) for c in EMBEDDED] + [(c, False) for c in EMBEDDED]
     dead = [str(k) for k in need if not cnt[k]]
     if dead:
         raise vlib.CheckError("dead driver: never observed %s (stats %s)" % (", ".join(dead), json.dumps(stats)[:1500]))
 
-    # 4. verdict: TLC validates the trace (in chunks cut at Reset lines)
-    size = 2500
+    # 4. verdict: TLC validates the trace (in chunks cut at Reset lines); in the same pool the binding self-test:
+    #    a prefix of the first chunk in which a bystander's balance changes in a failed transaction must be rejected
+    size = 1200 if quick else 2500
     chs = chunks_of(rows, size)
     paths = []
     for i, ch in enumerate(chs):
         pth = ctx.path("chunks", "chunk_%d.ndjson" % i)
         vlib.write_ndjson(pth, ch)
         paths.append(pth)
+
+    def mutate(rows_):
+        for row in rows_:
+            if row.get("ev") == "Tx" and not row["mid"] and not row["rc"]["success"]:
+                for a in row["st"]:
+                    if a["a"] not in (row["tx"]["from"], "k0") and a["bal"]:
+                        a["bal"][0] = (a["bal"][0] + 1) % 10000
+                        return rows_
+        return None
+    badrows = mutate(json.loads(json.dumps(chs[0][:400])))
+    if badrows is None:
+        raise vlib.CheckError("self-test could not build a corrupted trace")
+    badp = ctx.path("selftest", "bad.ndjson")
+    vlib.write_ndjson(badp, badrows)
+    jobs = list(enumerate(paths)) + [(len(paths), badp)]
     with concurrent.futures.ThreadPoolExecutor(max_workers=max(1, min(6, ctx.cores // 2))) as ex:
-        infos = list(ex.map(lambda a: validate_chunk(ctx, a[0], a[1]), enumerate(paths)))
+        infos = list(ex.map(lambda a: validate_chunk(ctx, a[0], a[1]), jobs))
+    badinfo = infos.pop()
     drift = sum(i["drift"] for i in infos)
-    nviol = 0
     for ci, info in enumerate(infos):
         if "rejected_at" in info and not info["broken"]:
             raise vlib.CheckError("trace chunk %d not consumed completely (line %s): malformed trace" % (ci, info.get("rejected_at")))
@@ -297,25 +394,20 @@ def main(ctx):
             exf = ctx.path("replay_%s_%d.ndjson" % (clause, ci))
             vlib.write_ndjson(exf, ch[start:line])
             key = violation_key(clause, bad)
-            slim = {k: bad.get(k) for k in ("c", "op", "tx", "rc", "err", "eff", "mid")}
-            vlib.report_violation(ctx, key, "clause %s broken by the real node on %s (%s, success=%s, error=%r); observed %s"
-                                  % (clause, signature(bad), json.dumps(bad.get("op")), bad["rc"]["success"], bad.get("err"),
+            slim = {k: bad.get(k) for k in ("c", "mainc", "role", "op", "tx", "rc", "err", "eff", "mid")}
+            bstart = line - 1
+            while bstart - 1 > start and (ch[bstart - 1]["ev"] == "Plain" or (ch[bstart - 1]["ev"] == "Tx" and ch[bstart - 1]["mid"])):
+                bstart -= 1
+            blockops = [("%s %s.%s %s" % (y.get("role"), y.get("c"), y.get("method"), "ok" if y["rc"]["success"] else "failed")) if y["ev"] == "Tx"
+                        else "plain %s->%s" % (y["from"], y["to"]) for y in ch[bstart:line] if y["ev"] in ("Tx", "Plain")]
+            vlib.report_violation(ctx, key, "clause %s broken by the real node on %s (%s, success=%s, error=%r; block: %s); observed %s"
+                                  % (clause, signature(bad), json.dumps(bad.get("op")), bad["rc"]["success"], bad.get("err"), blockops,
                                      json.dumps(slim)[:900]),
-                                  replay_src=exf, payload={"clause": clause, "line": slim})
-            nviol += 1
-
-    # 5. binding self-test: a bystander's balance changes in a failed transaction -> must be rejected
-    def mutate(rows_):
-        for row in rows_:
-            if row.get("ev") == "Tx" and not row["mid"] and not row["rc"]["success"]:
-                for a in row["st"]:
-                    if a["a"] not in (row["tx"]["from"], "k0") and a["bal"]:
-                        a["bal"][0] = (a["bal"][0] + 1) % 10000
-                        return rows_
-        return None
-    if not ctx.violations:
-        from props.c13 import selftest_reject
-        selftest_reject(ctx, "Trace_ContractTx.tla", "Trace_ContractTx.cfg", paths[0], mutate, n_lines=400)
+                                  replay_src=exf, payload={"clause": clause, "line": slim, "block": blockops})
+    if not infos[0]["broken"] and not badinfo["broken"]:
+        raise vlib.CheckError("binding self-test failed: corrupted trace was accepted by Trace_ContractTx.tla")
+    if not infos[0]["broken"]:
+        ctx.log("binding self-test: corrupted trace rejected (%s at line %s)" % (badinfo["broken"][0][1], badinfo["broken"][0][0]))
 
     # coverage against the envelope model
     obs_classes = set()
@@ -336,7 +428,8 @@ def main(ctx):
         if not x["rc"]["success"] and x["eff"]["sh"]["writes"] and len(samples) < 4 and len(samples) >= 2:
             samples.append({"contract": x["c"], "op": x["op"], "success": False, "error": x["err"]})
     cov = {
-        "states": r.distinct + ro.distinct, "transitions": r.generated + ro.generated,
+        "states": r.distinct + ro.distinct + blk_states, "transitions": r.generated + ro.generated,
+        "block_model_states": blk_states,
         "envelope_model": {"cfg": cfg, "distinct": r.distinct, "generated": r.generated, "classes": len(model_classes)},
         "scenario_model": {"cfg": ocfg, "lifecycle_states": ro.distinct, "transitions_exported": len(ro.exports)},
         "traces_validated_against_impl": len(cases) + len(walks),
@@ -353,11 +446,14 @@ def main(ctx):
         "rule": "envelope model explored exhaustively within bounds; every operation class (method x argument class x pay-amount class x "
                 "gas class x caller role x pair, <= %d deviations from the well-formed default) attempted in every lifecycle state of the 5 "
                 "embedded, 5 bundled wasm and 1 hand-assembled wasm contracts: %d sampled transitions (all well-formed ones) + %d random walks of 24 operations, "
-                "each executed on a real chain, one contract transaction per block (two for pair operations)"
-                % (2 if quick else 3, len(cases), len(walks)),
+                "each executed on a real chain, one contract transaction per block (two for pair operations); %d sandwich blocks "
+                "(operation + balance change outside the contract environment + further contract transactions of the same / another "
+                "embedded / wasm contract, 24 shapes, body order chosen through the repository's block assembly shim)"
+                % (2 if quick else 3, len(cases), len(walks), len(sandwiches)),
     }
     return vlib.finish(ctx, "model_checking", cov, assumptions=[
         "the proposer of every block is not a party of the contract transaction (block rewards touch the proposer only)",
+        "inside a block with several transactions only the state after the block is observed; the state between two transactions is the specified outcome of the earlier ones (carried by the trace specification), and the recording environments read from the pre-state with the earlier transactions applied one by one, each with a VM of its own (VerifApplyTxFresh shim)",
         "requested balances, burns and wasm deployments are read from the node's own accounting callbacks (stats collector) during the real run",
         "requested store writes / stake moves of embedded contracts are obtained by running the real contract code against a recording environment on the committed pre-state",
         "requested store writes of wasm contracts are obtained by running the contract code with the bought gas through a recording host environment wrapped around the node's own environment object, on a throw-away copy of the committed pre-state",
